@@ -1,298 +1,60 @@
 /-
-Interim number support for the spec model: binary64 values are `UInt64` bit patterns (never `Float`).
-Everything is exact big-`Nat` rational arithmetic with round-to-nearest-even.
+Number support of the reference interpreter: binary64 values are `UInt64` bit patterns (never `Float`).
 
-Interface (namespace `Yarel.Spec.Num`), to be replaced later by a separately verified module:
-  `display parse add sub mul div fmod neg ofInt` plus the casts `toI64 toU32 toU8` and the
-  integer-valued operators built from them (`bitAnd bitOr bitXor bitNot shl shr`).
+Every operation IS the separately verified model:
+* arithmetic, casts and the integer-valued operators: `Yarel/Model/F64.lean` (exact rational arithmetic, one rounding
+  `roundRat`, proved nearest-even in `Yarel/Props/C19.lean`: `roundRat_nearest`, `roundRat_exact`, `roundRat_overflow_iff`,
+  `ofInt_exact`), tied to the implementation by the `num` driver correspondence of C05/C19;
+* text: `Yarel/Model/NumText.lean` (`parseDec` = Rust's `str::parse::<f64>`, `display` = yarel's `Display` for numbers;
+  `print_parse_roundtrip`, `parse_nearest`, `parse_wellFormed`, `integral_no_fraction`, `nonintegral_one_dot`).
+So the theorems about numbers hold of what (S) computes, by definition.  (The file keeps its first name; the interim
+implementation it held was validated against the implementation and then replaced by these definitions.)
+
+Interface (namespace `Yarel.Spec.Num`): `display parse add sub mul div fmod neg ofInt ofNat`, the casts `toI64 toU32 toU8`
+and `bitAnd bitOr bitXor bitNot shl shr`.
 -/
-import Yarel.Model.F64Core
+import Yarel.Model.F64
+import Yarel.Model.NumText
 
 namespace Yarel.Spec.Num
 open Yarel.F64
 
 abbrev Bits := UInt64
 
-/-- Nearest-even binary64 of the positive rational `num/den` with the given sign. -/
-def roundRat (sign : Bool) (num den : Nat) : Bits :=
-  let signBits : UInt64 := if sign then 0x8000000000000000 else 0
-  if num == 0 || den == 0 then signBits
-  else
-    -- choose e with 2^52 ≤ num / (den * 2^e) < 2^53 (then clamp to the subnormal exponent)
-    let e0 : Int := (Nat.log2 num : Int) - (Nat.log2 den : Int) - 52
-    let scaled (e : Int) : Nat × Nat :=
-      if e ≥ 0 then (num, den * 2 ^ e.toNat) else (num * 2 ^ (-e).toNat, den)
-    let e1 : Int :=
-      let (n, d) := scaled e0
-      let q := n / d
-      if q < 2 ^ 52 then e0 - 1 else if q ≥ 2 ^ 53 then e0 + 1 else e0
-    let e : Int := if e1 < -1074 then -1074 else e1
-    let (n, d) := scaled e
-    let q := n / d
-    let r := n % d
-    let q := if 2 * r > d || (2 * r == d && q % 2 == 1) then q + 1 else q
-    let (q, e) := if q ≥ 2 ^ 53 then (q / 2, e + 1) else (q, e)
-    if q < 2 ^ 52 then signBits ||| UInt64.ofNat q
-    else
-      let biased : Int := e + 1075
-      if biased ≥ 2047 then signBits ||| posInf
-      else signBits ||| (UInt64.ofNat biased.toNat <<< 52) ||| UInt64.ofNat (q - 2 ^ 52)
-
 /-- `i as f64`. -/
-def ofInt (i : Int) : Bits := roundRat (i < 0) i.natAbs 1
-
-def ofNat (n : Nat) : Bits := roundRat false n 1
-
-/-- Finite value as (sign, numerator, denominator). -/
-def toRat (b : Bits) : Bool × Nat × Nat :=
-  let (s, m, e) := decode b
-  if e ≥ 0 then (s, m * 2 ^ e.toNat, 1) else (s, m, 2 ^ (-e).toNat)
+def ofInt (i : Int) : Bits := Yarel.F64.ofInt i
+def ofNat (n : Nat) : Bits := Yarel.F64.roundRat false n 1
 
 def neg (b : Bits) : Bits := Yarel.F64.neg b
-
-def add (a b : Bits) : Bits :=
-  if isNaN a || isNaN b then canonNaN
-  else if isInf a then
-    (if isInf b && signBit a != signBit b then canonNaN else a)
-  else if isInf b then b
-  else
-    let (sa, ma, ea) := decode a
-    let (sb, mb, eb) := decode b
-    let e := if ea ≤ eb then ea else eb
-    let ia : Int := (if sa then -1 else 1) * ((ma * 2 ^ (ea - e).toNat : Nat) : Int)
-    let ib : Int := (if sb then -1 else 1) * ((mb * 2 ^ (eb - e).toNat : Nat) : Int)
-    let s := ia + ib
-    if s == 0 then (if sa && sb then negZero else posZero)
-    else if e ≥ 0 then roundRat (s < 0) (s.natAbs * 2 ^ e.toNat) 1
-    else roundRat (s < 0) s.natAbs (2 ^ (-e).toNat)
-
-def sub (a b : Bits) : Bits := add a (neg b)
-
-def mul (a b : Bits) : Bits :=
-  if isNaN a || isNaN b then canonNaN
-  else
-    let sign := signBit a != signBit b
-    if isInf a || isInf b then
-      (if isZero a || isZero b then canonNaN else if sign then negInf else posInf)
-    else
-      let (_, na, da) := toRat a
-      let (_, nb, db) := toRat b
-      roundRat sign (na * nb) (da * db)
-
-def div (a b : Bits) : Bits :=
-  if isNaN a || isNaN b then canonNaN
-  else
-    let sign := signBit a != signBit b
-    if isInf a then (if isInf b then canonNaN else if sign then negInf else posInf)
-    else if isInf b then (if sign then negZero else posZero)
-    else if isZero b then (if isZero a then canonNaN else if sign then negInf else posInf)
-    else
-      let (_, na, da) := toRat a
-      let (_, nb, db) := toRat b
-      roundRat sign (na * db) (da * nb)
-
-/-- Rust `a % b` on `f64` (C `fmod`): exact, sign of the dividend. -/
-def fmod (a b : Bits) : Bits :=
-  if isNaN a || isNaN b || isInf a || isZero b then canonNaN
-  else if isInf b then a
-  else if isZero a then a
-  else
-    let (sa, ma, ea) := decode a
-    let (_, mb, eb) := decode b
-    let e := if ea ≤ eb then ea else eb
-    let ia := ma * 2 ^ (ea - e).toNat
-    let ib := mb * 2 ^ (eb - e).toNat
-    let r := ia % ib
-    if r == 0 then (if sa then negZero else posZero)
-    else if e ≥ 0 then roundRat sa (r * 2 ^ e.toNat) 1
-    else roundRat sa r (2 ^ (-e).toNat)
+def add (a b : Bits) : Bits := Yarel.F64.add a b
+def sub (a b : Bits) : Bits := Yarel.F64.sub a b
+def mul (a b : Bits) : Bits := Yarel.F64.mul a b
+def div (a b : Bits) : Bits := Yarel.F64.div a b
+/-- Rust `%` on `f64` (C `fmod`). -/
+def fmod (a b : Bits) : Bits := Yarel.F64.fmod a b
 
 /-- `f as i64` (saturating, NaN ↦ 0). -/
-def toI64 (b : Bits) : Int := toIsize b
-
+def toI64 (b : Bits) : Int := Yarel.F64.toI64 b
 /-- `f as u32` (saturating, NaN ↦ 0). -/
-def toU32 (b : Bits) : Nat :=
-  if isNaN b then 0
-  else if signBit b then 0
-  else if isInf b then 4294967295
-  else
-    let t := truncMag b
-    if t > 4294967295 then 4294967295 else t
-
+def toU32 (b : Bits) : Nat := Yarel.F64.toU32Sat b
 /-- `f as u8` (saturating, NaN ↦ 0). -/
 def toU8 (b : Bits) : Nat :=
   if isNaN b then 0
   else if signBit b then 0
   else if isInf b then 255
-  else
-    let t := truncMag b
-    if t > 255 then 255 else t
+  else min (truncMag b) 255
 
-/-- Two's-complement wrap of an integer into `i64`. -/
-def wrapI64 (i : Int) : Int :=
-  let m : Int := i % 18446744073709551616
-  if m ≥ 9223372036854775808 then m - 18446744073709551616 else m
+def bitAnd (a b : Bits) : Bits := Yarel.F64.band a b
+def bitOr (a b : Bits) : Bits := Yarel.F64.bor a b
+def bitXor (a b : Bits) : Bits := Yarel.F64.bxor a b
+def bitNot (a : Bits) : Bits := Yarel.F64.bnot a
+def shl (a b : Bits) : Bits := Yarel.F64.shl a b
+def shr (a b : Bits) : Bits := Yarel.F64.shr a b
 
-def i64ToU64 (i : Int) : Nat := (i % 18446744073709551616).toNat
+/-- yarel's `Display` for numbers. -/
+def display (b : Bits) : String := Yarel.NumText.display b
 
-def u64ToI64 (n : Nat) : Int :=
-  if n ≥ 9223372036854775808 then (n : Int) - 18446744073709551616 else (n : Int)
-
-def bitAnd (a b : Bits) : Bits := ofInt (u64ToI64 (i64ToU64 (toI64 a) &&& i64ToU64 (toI64 b)))
-def bitOr (a b : Bits) : Bits := ofInt (u64ToI64 (i64ToU64 (toI64 a) ||| i64ToU64 (toI64 b)))
-def bitXor (a b : Bits) : Bits := ofInt (u64ToI64 (i64ToU64 (toI64 a) ^^^ i64ToU64 (toI64 b)))
-def bitNot (a : Bits) : Bits := ofInt (-(toI64 a) - 1)
-
-/-- `(a as i64).checked_shl(b as u32).unwrap_or_default() as f64`. -/
-def shl (a b : Bits) : Bits :=
-  let sh := toU32 b
-  if sh ≥ 64 then posZero else ofInt (wrapI64 (toI64 a * (2 ^ sh : Nat)))
-
-/-- `(a as i64).checked_shr(b as u32).unwrap_or_default() as f64` (arithmetic shift). -/
-def shr (a b : Bits) : Bits :=
-  let sh := toU32 b
-  if sh ≥ 64 then posZero else ofInt (toI64 a / (2 ^ sh : Nat))   -- Int `/` floors for positive divisors
-
-/-! ### Shortest round-trip digits (Burger–Dybvig free-format algorithm) -/
-
-structure DigitState where
-  r : Nat
-  s : Nat
-  mp : Nat
-  mm : Nat
-  k : Int
-
-def tooLow (even : Bool) (r mp s : Nat) : Bool := if even then r + mp ≥ s else r + mp > s
-
-def scaleUp (even : Bool) : Nat → DigitState → DigitState
-  | 0, st => st
-  | n + 1, st =>
-    if tooLow even st.r st.mp st.s then scaleUp even n { st with s := st.s * 10, k := st.k + 1 } else st
-
-def scaleDown (even : Bool) : Nat → DigitState → DigitState
-  | 0, st => st
-  | n + 1, st =>
-    if !tooLow even (st.r * 10) (st.mp * 10) st.s then
-      scaleDown even n { st with r := st.r * 10, mp := st.mp * 10, mm := st.mm * 10, k := st.k - 1 }
-    else st
-
-def genDigits (even : Bool) : Nat → Nat → Nat → Nat → Nat → List Nat → List Nat
-  | 0, _, _, _, _, acc => acc.reverse
-  | n + 1, r, s, mp, mm, acc =>
-    let r10 := r * 10
-    let d := r10 / s
-    let r := r10 % s
-    let mp := mp * 10
-    let mm := mm * 10
-    let tc1 := if even then r ≤ mm else r < mm
-    let tc2 := if even then r + mp ≥ s else r + mp > s
-    if !tc1 && !tc2 then genDigits even n r s mp mm (d :: acc)
-    else if tc1 && !tc2 then (d :: acc).reverse
-    else if !tc1 && tc2 then ((d + 1) :: acc).reverse
-    else if r * 2 < s then (d :: acc).reverse
-    else ((d + 1) :: acc).reverse
-
-/-- Shortest digits `d₁…dₙ` and exponent `k` with value = `0.d₁…dₙ × 10^k` (finite, non-zero input). -/
-def shortestDigits (b : Bits) : List Nat × Int :=
-  let (_, f, e) := decode b
-  let even := f % 2 == 0
-  let boundary := f == 2 ^ 52 && expField b > 1
-  let st : DigitState :=
-    if e ≥ 0 then
-      let be := 2 ^ e.toNat
-      if !boundary then { r := f * be * 2, s := 2, mp := be, mm := be, k := 0 }
-      else { r := f * be * 4, s := 4, mp := be * 2, mm := be, k := 0 }
-    else
-      if !boundary then { r := f * 2, s := 2 ^ ((-e).toNat + 1), mp := 1, mm := 1, k := 0 }
-      else { r := f * 4, s := 2 ^ ((-e).toNat + 2), mp := 2, mm := 1, k := 0 }
-  let st := scaleUp even 400 st
-  let st := scaleDown even 400 st
-  (genDigits even 30 st.r st.s st.mp st.mm [], st.k)
-
-def digitChar (d : Nat) : Char := Char.ofNat (48 + d)
-
-/-- Rust `format!("{}", f)` for `f64`, except that negative zero is printed as `-0` (which both
-yarel's `Value` display and current Rust do). -/
-def display (b : Bits) : String :=
-  if isNaN b then "NaN"
-  else if isInf b then (if signBit b then "-inf" else "inf")
-  else if isZero b then (if signBit b then "-0" else "0")
-  else
-    let (ds, k) := shortestDigits b
-    let n := ds.length
-    let chars := ds.map digitChar
-    let body : List Char :=
-      if k ≤ 0 then '0' :: '.' :: (List.replicate (-k).toNat '0' ++ chars)
-      else if k.toNat < n then chars.take k.toNat ++ '.' :: chars.drop k.toNat
-      else chars ++ List.replicate (k.toNat - n) '0'
-    String.ofList (if signBit b then '-' :: body else body)
-
-/-! ### Rust `f64::from_str` -/
-
-def lowerAscii (c : Char) : Char := if 'A' ≤ c && c ≤ 'Z' then Char.ofNat (c.toNat + 32) else c
-
-def takeDigits : List Char → List Char → List Char × List Char
-  | c :: cs, acc => if '0' ≤ c && c ≤ '9' then takeDigits cs (c :: acc) else (acc.reverse, c :: cs)
-  | [], acc => (acc.reverse, [])
-
-def digitsToNat (ds : List Char) : Nat := ds.foldl (fun acc c => acc * 10 + (c.toNat - 48)) 0
-
-def dropLeadingZeros : List Char → List Char
-  | '0' :: cs => dropLeadingZeros cs
-  | cs => cs
-
-def parse (str : String) : Option Bits :=
-  let cs := str.toList
-  let (sign, cs) :=
-    match cs with
-    | '-' :: rest => (true, rest)
-    | '+' :: rest => (false, rest)
-    | _ => (false, cs)
-  let signBits : UInt64 := if sign then 0x8000000000000000 else 0
-  if cs.isEmpty then none
-  else
-    let low := String.ofList (cs.map lowerAscii)
-    if low == "inf" || low == "infinity" then some (signBits ||| posInf)
-    else if low == "nan" then some (signBits ||| canonNaN)
-    else
-      let (intDs, rest) := takeDigits cs []
-      let (fracDs, rest) :=
-        match rest with
-        | '.' :: r => takeDigits r []
-        | _ => ([], rest)
-      if intDs.isEmpty && fracDs.isEmpty then none
-      else
-        let expPart : Option Int :=
-          match rest with
-          | [] => some 0
-          | c :: r =>
-            if c == 'e' || c == 'E' then
-              let (esign, r) :=
-                match r with
-                | '-' :: r' => (true, r')
-                | '+' :: r' => (false, r')
-                | _ => (false, r)
-              let (eds, r) := takeDigits r []
-              if eds.isEmpty || !r.isEmpty then none
-              else
-                -- saturate absurd exponents (the result is 0 or inf anyway)
-                let eds := dropLeadingZeros eds
-                let mag : Nat := if eds.length > 8 then 100000000 else digitsToNat eds
-                some (if esign then -(mag : Int) else (mag : Int))
-            else none
-        match expPart with
-        | none => none
-        | some ex =>
-          let mantDs := dropLeadingZeros (intDs ++ fracDs)
-          if mantDs.isEmpty then some signBits
-          else
-            let exp10 : Int := ex - (fracDs.length : Int)
-            let magnitude : Int := (mantDs.length : Int) + exp10
-            if magnitude > 400 then some (signBits ||| posInf)
-            else if magnitude < -400 then some signBits
-            else
-              let mant := digitsToNat mantDs
-              if exp10 ≥ 0 then some (roundRat sign (mant * 10 ^ exp10.toNat) 1)
-              else some (roundRat sign mant (10 ^ (-exp10).toNat))
+/-- `str.parse::<f64>()` (number literals and `String.to_num`); `none` = `Err`. -/
+def parse (str : String) : Option Bits := Yarel.NumText.parseDec str.toList
 
 end Yarel.Spec.Num
